@@ -250,12 +250,12 @@ def structural_edit(doc: dict, kind: Optional[str] = None) -> st.SearchStrategy:
 
 
 # ---- (d) schema-violating single edits -----------------------------------------------------------------
-def violating_edit(doc: dict) -> st.SearchStrategy:
+def violating_edit(doc: dict, kind: Optional[str] = None) -> st.SearchStrategy:
     @st.composite
     def _s(draw):
         d = copy.deepcopy(doc)
         pick = lambda seq: seq[draw(st.integers(0, len(seq) - 1))]
-        k = draw(st.sampled_from([
+        k = kind or draw(st.sampled_from([
             "request-no-result", "request-no-direction", "bad-direction", "sincetags-not-strings", "tuple-items-string",
             "struct-extra-key", "prop-extra-key", "prop-no-type", "optional-not-bool", "enum-no-values", "enum-bad-base",
             "alias-no-type", "metadata-extra", "base-bad-name", "top-extra-key", "method-not-string", "no-structures",
@@ -512,6 +512,9 @@ def run(ctx: Ctx) -> None:
 
     # (d) gate
     gate_cases: List[Tuple[str, dict]] = []
+    # standing cases: violations that the attrs loader alone would NOT reject (they exposed the once-vacuous gate)
+    for fixed_kind in ("request-no-result", "sincetags-not-strings", "tuple-items-string"):
+        mini(violating_edit(base, fixed_kind), 1, (ctx.seed, "C18", "gate", fixed_kind), lambda x: gate_cases.append(x))
     mini(violating_edit(base), n_gate, (ctx.seed, "C18", "gate"), lambda x: gate_cases.append(x))
     plugins = ["python", "rust", "dotnet", "testdata"]
     jobs = []
